@@ -764,13 +764,20 @@ def run_build_case(spec: dict) -> dict:
     row_watch = simcases.RowWatch()
     row_watch.samples = [(k, t, steps) for k, t, steps, _, _ in watch.samples]
     reset = row_watch.windows_not_running(res.runs)
-    if reset:
-        r0 = reset[0]
+    twice = simcases.jobs_in_flight_twice(res.jobs)
+    if reset or twice:
         count("builds-with-row-reset-under-running-command")
+        if reset:
+            r0 = reset[0]
+            text = (f"the command of step '{r0['step']}' (job {r0['job']}) was running (logical time {r0['window']}) "
+                    f"while its step row was in state {r0['state']} at commit {r0['commit']}")
+        else:
+            r0 = twice[0]
+            text = (f"step '{r0['step']}' had two jobs in flight at once (jobs {r0['jobs']}, kinds {r0['kinds']}, "
+                    f"logical times {r0['windows']})")
         finding("running-step-row-reset",
-                f"the command of step '{r0['step']}' (job {r0['job']}) was running (logical time {r0['window']}) while "
-                f"its step row was in state {r0['state']} at commit {r0['commit']}: its re-running creator redefined "
-                f"the running step; the build ended with status {res.status}", resets=reset[:3], external=ext,
+                f"{text}: its re-running creator redefined the step while a job of it was in flight; the build ended "
+                f"with status {res.status}", resets=reset[:3], twice=twice[:3], external=ext,
                 error=(res.error or "")[-1200:])
         return {"findings": findings, "counts": counts, "wall": time.time() - t0}
     if build_failed:
@@ -897,9 +904,9 @@ def run_build_case(spec: dict) -> dict:
 async def search(ctx):
     import simpool
 
-    ncase = ctx.budget(240, 6000)
+    ncase = ctx.budget(1500, 40000)
     specs = [make_spec(ctx.seed, i, ctx.tier) for i in range(ncase)]
-    soft = 45 if ctx.tier == "quick" else 800
+    soft = 50 if ctx.tier == "quick" else 900
     ran = 0
     for status, task, res in simpool.run("props.c03", "run_build_case", specs, deadline_s=soft + 120, soft_s=soft):
         if status == "ok":
